@@ -163,9 +163,14 @@ def generate(rng, tier):
     if rmacro:
         # the text first DEFINES a reader macro and later forms USE it: only right when every top-level form is
         # read after the previous one was evaluated (the REPL clause uses a fresh REPL per cut for such texts)
-        forms.insert(0, ["seq", "(", [["atom", "defreader", True], ["atom", "zq", True], ["str", "", "zq-value"]], [" ", " ", " ", " "], False])
+        rmacro = rng.choice(["const", "width"])
+        if rmacro == "const":
+            forms.insert(0, ["seq", "(", [["atom", "defreader", True], ["atom", "zq", True], ["str", "", "zq-value"]], [" ", " ", " ", " "], False])
+        else:
+            # a reader macro that consumes a fixed-width token through the reader's own getc / getn
+            forms.insert(0, ["raw", "(defreader zw (.getc &reader) (.getn &reader 4))"])
         for _ in range(rng.randint(1, 3)):
-            use = ["atom", "#zq", False]
+            use = ["atom", "#zq", False] if rmacro == "const" else ["rmtok", "".join(rng.choice("abcdwxyz") for _ in range(4))]
             kind = rng.choice(["bare", "quoted-seq", "quoted-seq", "call"])
             if kind == "quoted-seq":
                 use = ["prefix", "'", [["seq", rng.choice(["(", "["]), [["atom", "x", True], use, ["atom", "1", True]], [" ", " ", "\n", " "], False]], ""]
@@ -239,6 +244,21 @@ class Render:
                 self.emit(" ; c\n", "struct")
             self.stack.pop()
             self.emit(closer, "form", "seq" + opener)
+            self.complete_form()
+        elif k == "raw":
+            self.stack.append(["seq", "raw"])
+            self.emit(t[1][:-1], "struct")
+            self.stack.pop()
+            self.emit(t[1][-1], "form", "raw")
+            self.complete_form()
+        elif k == "rmtok":
+            # `#zw abcd`: after the tag the macro itself keeps reading, so every cut up to the last character of the
+            # token is inside an open construct
+            self.emit("#z", "skip", "rmtok")
+            self.stack.append(["seq", "rmtok"])
+            self.emit("w " + t[1][:-1], "struct")
+            self.stack.pop()
+            self.emit(t[1][-1], "form", "rmtok")
             self.complete_form()
         elif k == "str":
             _, pre, body = t
@@ -388,6 +408,7 @@ def _read_prefix(text, k, rmacro=False):
         # reading without evaluating: the macro the text defines is installed in the reader beforehand
         rd = hy.HyReader()
         rd.reader_macros["zq"] = lambda reader, key: "zq-value"
+        rd.reader_macros["zw"] = lambda reader, key: (reader.getc(), reader.getn(4))[1]
         kw["reader"] = rd
     try:
         n = len(list(hy.read_many(st, **kw)))
@@ -439,6 +460,7 @@ def execute(desc):
         # always judge the complete text and the cuts just after each use
         runsource_cuts.add(len(text))
         runsource_cuts.update(i + 4 for i in range(len(text)) if text.startswith("#zq", i) and i + 4 <= len(text))
+        runsource_cuts.update(i + d for i in range(len(text)) if text.startswith("#zw ", i) for d in (4, 6, 8) if i + d <= len(text))
     outs = []
     for k in range(len(text) + 1):
         c = cls[k]
